@@ -22,7 +22,11 @@ type Task struct {
 
 	canceled  bool
 	executing bool
-	overtime  bool // locked by scheduleLock
+	runAgain  bool // task was submitted and due again while it was executing
+
+	submissions    uint64 // number of times the task was queued
+	runSubmissions uint64 // value of submissions when the current execution was started
+	overtime       bool   // locked by scheduleLock
 
 	// these are populated at task creation
 	// ctx is canceled when module is shutdown -> all tasks become canceled
@@ -160,6 +164,7 @@ func (t *Task) prepForQueueing() (ok bool) {
 	if !t.isActive() {
 		return false
 	}
+	t.submissions++
 
 	if t.maxDelay != 0 {
 		t.executeAt = time.Now().Add(t.maxDelay)
@@ -323,6 +328,12 @@ func (t *Task) runWithLocking() {
 
 	// check if task is already executing
 	if t.executing {
+		// If the task was submitted again while it is executing and is due
+		// now, remember to queue it again when the current execution has
+		// finished, as it has just been removed from the queues.
+		if t.submissions != t.runSubmissions {
+			t.runAgain = true
+		}
 		t.lock.Unlock()
 		return
 	}
@@ -345,6 +356,7 @@ func (t *Task) runWithLocking() {
 
 	// enter executing state
 	t.executing = true
+	t.runSubmissions = t.submissions
 	t.lock.Unlock()
 	verifPoint("tasks.run.checked", t.name)
 
@@ -408,6 +420,19 @@ func (t *Task) executeWithLocking() {
 
 		// reset state
 		t.executing = false
+
+		// queue again, if the task was due again during the execution
+		if t.runAgain {
+			t.runAgain = false
+			if t.isActive() {
+				queuesLock.Lock()
+				if t.prioritizedQueueElement == nil {
+					t.prioritizedQueueElement = prioritizedTaskQueue.PushFront(t)
+				}
+				queuesLock.Unlock()
+				notifyQueue()
+			}
+		}
 
 		// repeat?
 		if t.isActive() && t.repeat != 0 && t.executeAt.IsZero() {
